@@ -411,6 +411,15 @@ class Ctx:
         shutil.rmtree(self.work, ignore_errors=True)
 
 
+def raised_by_code_under_test(exc, repo=None):
+    """True when the innermost frame of the exception's traceback lies in the repository under
+    test: such an exception is an observation about the code, not a harness failure."""
+    import traceback
+    repo = os.path.realpath(repo or os.environ.get("VERIF_REPO", "/repo"))
+    tb = traceback.extract_tb(exc.__traceback__)
+    return bool(tb) and os.path.realpath(tb[-1].filename).startswith(repo + os.sep)
+
+
 def _jsonable(o):
     if isinstance(o, bytes):
         return {"__bytes__": o.decode("latin-1")}
